@@ -1,6 +1,7 @@
 """Checks decided by the fieldmon engine: C01 C02 C03 C04 C05 C11 C12 C17."""
 import os, sys, time
 import vlib
+import vfuzz
 from vlib import VERIF
 
 sys.path.insert(0, os.path.join(VERIF, 'spec'))
@@ -86,11 +87,20 @@ def config_variants(obs, work, jobs, seed, variants=CONFIG_VARIANTS):
     obs.notes.extend('skipped build ' + x for x in SKIPPED)
 
 
+def guided(obs, work, ops, tier, seed):
+    """Coverage-guided stage (clang libFuzzer + ASan/UBSan, mon/fuzz_field.c): the same model oracle, but the inputs are found
+    from the comparisons the library executes - values and contents outside every enumerated class."""
+    runs = 150000 if tier == 'quick' else 12000000
+    n = vfuzz.stage(obs, work, vfuzz.field_target(work), 'field-' + ops.replace(' ', '+'), dict(VP_FUZZ_OPS=ops), runs, 8 if tier == 'quick' else 16, seed,
+                    seeds=vfuzz.field_seeds(ops))
+    return ' Coverage-guided stage (libFuzzer, operations {%s}): %d executions.' % (ops, n or 0)
+
+
 def filt(obs, prefixes):
     """Keep only violation keys that belong to this property (by key prefix) or sanitizer/signal keys."""
     keep = {}
     for k, v in obs.viol.items():
-        if any(k.startswith(p) for p in prefixes) or k.split(':')[0] in ('argeval', 'hang', 'AddressSan', 'UBSan', 'UndefinedBehaviorSan', 'LeakSan', 'ThreadSan', 'MemorySan', 'signal'):
+        if any(k.startswith(p) for p in prefixes) or k.split(':')[0] in ('argeval', 'hang', 'fuzz', 'fuzz-crash', 'AddressSan', 'UBSan', 'UndefinedBehaviorSan', 'LeakSan', 'ThreadSan', 'MemorySan', 'signal'):
             keep[k] = v
     obs.viol = keep
 
@@ -125,12 +135,13 @@ def c01(tier, seed):
         raw = int(obs.stats.get('nontrivial', 0)) - named * len(PLACES)
         config_variants(obs, work, [dict(VP_MODE='read', VP_FORMATS='all', VP_REPS=reps(tier, 100, 5000)), dict(VP_MODE='read', VP_FORMATS='all', VP_REPS=50, VP_PLACE=1),
                                     dict(VP_MODE='raw', VP_FORMATS='all', VP_REPS=64)], seed)
+        gnote = guided(obs, work, 'get', tier, seed)
         filt(obs, ['read:', 'raw:RAW:get'])
         cov = dict(distinct_nontrivial=named + raw, named_field_paths=named, raw_descriptor_shapes=raw, placements=list(PLACES),
                    rule='(at PDU byte offsets 0, 4, 1 and 2 from a 16-byte boundary) every spec field x {generic, dedicated} path x {zero, ones, checkerboards, field-saturated, field-cleared, '
                         'walking-1 and walking-0 over every header bit, every value of fields up to 12 bits wide, %d random buffers}; raw reader over start quadlet '
                         '{0..7,11,30,61,63,64,127,128,200,253} x bit offset 0..31 x width 0..64.  A (field,path) or descriptor shape counts as '
-                        'non-trivial when the observed results were not all equal / a write changed bytes.' % R,
+                        'non-trivial when the observed results were not all equal / a write changed bytes.' % R + gnote,
                    exhaustive=False, formats=len(format_ids()))
         return vlib.finish('C01', 'exploration', tier, seed, obs, cov, ASSUME_COMMON, t0, min_evals=100000)
     finally:
@@ -151,12 +162,18 @@ def c02(tier, seed):
         raw = int(obs.stats.get('nontrivial', 0)) - named * len(PLACES)
         config_variants(obs, work, [dict(VP_MODE='write', VP_FORMATS='all', VP_REPS=reps(tier, 100, 5000)), dict(VP_MODE='write', VP_FORMATS='all', VP_REPS=50, VP_PLACE=1),
                                     dict(VP_MODE='raw', VP_FORMATS='all', VP_REPS=64)], seed)
-        filt(obs, ['write:', 'raw:RAW:set'])
+        # "a read immediately after a write returns v" also for repeated direct calls inside one optimised function
+        dj = [dict(VP_MODE='direct', VP_FORMATS='all', VP_REPS=reps(tier, 200, 20000), VP_PLACE=pl) for pl in (0, 1)]
+        run_modes(obs, b, dj, seed)
+        run_modes(obs, build_fieldmon(work, 'gcc-O2'), dj, seed, tag='direct-gcc-O2')
+        run_modes(obs, build_fieldmon(work, 'clang-O2'), dj, seed, tag='direct-clang-O2')
+        gnote = guided(obs, work, 'set', tier, seed)
+        filt(obs, ['write:', 'raw:RAW:set', 'direct:'])
         cov = dict(distinct_nontrivial=named + raw, named_field_paths=named, raw_descriptor_shapes=raw, placements=list(PLACES),
                    rule='(at PDU byte offsets 0, 4, 1 and 2 from a 16-byte boundary) every spec field x {generic, dedicated} path x prior buffers {zero, ones, checkerboards, random} x 14 value '
                         'classes (0,1,max,msb,2^w,2^w+1,2^64-1,alternating,walking,random-fit,random-64) + every single bit of the '
                         'field set/cleared + every value of fields up to 12 bits wide (plain and with garbage above the width) + %d random (buffer,value) pairs; whole 8 KiB arena compared with the model after each '
-                        'write, then read back.  Non-trivial: the write changed at least one bit.' % R,
+                        'write, then read back.  Non-trivial: the write changed at least one bit.' % R + gnote,
                    exhaustive=False, formats=len(format_ids()))
         return vlib.finish('C02', 'exploration', tier, seed, obs, cov, ASSUME_COMMON, t0, min_evals=100000)
     finally:
@@ -176,12 +193,13 @@ def c03(tier, seed):
                 continue
             jobs = [dict(VP_MODE='extent', VP_FORMATS=f, VP_EXTENT='heap' if v == 'asan' else 'guard') for f in format_ids()]
             run_modes(obs, b, jobs, seed, tag='extent-' + v)
+        gnote = guided(obs, work, 'set init', tier, seed)
         filt(obs, ['extent:'])
         cov = dict(distinct_nontrivial=int(obs.stats.get('nontrivial', 0)),
                    rule='per format: sizeof(type), offsetof(payload), *_HEADER_LEN and payload accessor compared with the wire size; '
                         'then every field x {generic,dedicated,legacy} get and set, and every initialiser, on a buffer of exactly '
                         '*_HEADER_LEN bytes: malloc block under ASan, and mmap blocks ending at / starting after a PROT_NONE page in '
-                        'builds %s.  Non-trivial: accessor call on a field of non-zero width.' % ', '.join(variants),
+                        'builds %s.  Non-trivial: accessor call on a field of non-zero width.' % ', '.join(variants) + gnote,
                    exhaustive=True, build_variants=variants)
         return vlib.finish('C03', 'exploration', tier, seed, obs, cov, ASSUME_COMMON + [
             'red zones / guard pages detect accesses adjacent to the buffer only; far stray writes are covered by the arena diff of C02/C04'],
@@ -202,12 +220,13 @@ def c04(tier, seed):
         lf = [f['id'] for f in S.load()['formats'] if f['legacy'] and f['legacy']['init']]
         run_modes(obs, b, [dict(VP_MODE='init', VP_FORMATS=f, VP_REPS=8, VP_LEGACYFIRST=1, VP_FIRSTARG=a) for f in lf for a in (255, 128, 1, 2, 254)], seed)
         config_variants(obs, work, [dict(VP_MODE='init', VP_FORMATS='all', VP_REPS=reps(tier, 200, 20000), VP_PLACE=pl) for pl in (0, 1)], seed, ('ilp32', 'ndebug', 'unsigned-char', 'no-byteorder-macros', 'msan', 'short-enums'))
+        gnote = guided(obs, work, 'init', tier, seed)
         filt(obs, ['init:'])
         cov = dict(distinct_nontrivial=int(obs.stats.get('nontrivial', 0)), placements=list(PLACES),
                    rule='20 current + 4 legacy initialisers (avtp_cvf_pdu_init for all 256 format_subtype values) x prior contents '
                         '{0x00, 0xFF, 0xA5, %d random} of header and surrounding bytes; header compared with the canonical image of '
                         'spec/wire.spec, all other arena bytes must be unchanged, second call must change nothing.  Non-trivial: '
-                        'prior header differed from the canonical image.' % R)
+                        'prior header differed from the canonical image.' % R + gnote)
         return vlib.finish('C04', 'exploration', tier, seed, obs, cov, ASSUME_COMMON, t0, min_evals=10000)
     finally:
         work.cleanup()
@@ -228,6 +247,7 @@ def c05(tier, seed):
         for v in ('gcc-O2', 'clang-O2') + (('gcc-O3', 'clang-O1', 'gcc-O0') if tier == 'thorough' else ()):
             run_modes(obs, build_fieldmon(work, v), dj, seed, tag='direct-' + v)
         config_variants(obs, work, [dict(VP_MODE='history', VP_FORMATS='all', VP_EPISODES=reps(tier, 100, 5000))] + dj[:1], seed, ('ilp32', 'ndebug', 'unsigned-char', 'msan'))
+        gnote = guided(obs, work, 'all', tier, seed)
         filt(obs, ['history:', 'direct:'])
         cov = dict(distinct_nontrivial=int(obs.stats.get('history.distinct_histories', 0)),
                    episodes=int(obs.stats.get('history.episodes', 0)), history_ops=int(obs.stats.get('history.ops', 0)),
@@ -238,7 +258,7 @@ def c05(tier, seed):
                         'buffer; slot 0 history replayed alone must give identical bytes; plus all ordered field pairs of each format '
                         'for commutation and idempotence; plus direct-call sequences (get, set, get, replace header, get for every accessor, all '
                         'in one function) in the ASan build and optimised gcc/clang builds.  distinct_nontrivial = distinct operation-sequence '
-                        'hashes.' % E)
+                        'hashes.' % E + gnote)
         return vlib.finish('C05', 'exploration', tier, seed, obs, cov, ASSUME_COMMON, t0, min_evals=100000)
     finally:
         work.cleanup()
@@ -281,13 +301,14 @@ def c12(tier, seed):
         run_modes(obs, b, dj, seed)
         run_modes(obs, build_fieldmon(work, 'gcc-O2'), dj, seed, tag='direct-gcc-O2')
         config_variants(obs, work, [dict(VP_MODE='legacy', VP_FORMATS='all', VP_REPS=reps(tier, 200, 20000), VP_PLACE=pl) for pl in (0, 1)], seed, ('ilp32', 'ndebug', 'unsigned-char', 'msan', 'short-enums'))
+        gnote = guided(obs, work, 'legacy get set init', tier, seed)
         filt(obs, ['legacy:', 'direct:'])
         cov = dict(distinct_nontrivial=int(obs.stats.get('nontrivial', 0)) // len(PLACES), legacy_formats=fm, placements=list(PLACES),
                    rule='5 legacy formats x every field identifier and every legacy alias macro: legacy get vs current GetField on '
                         'identical buffers (%d buffers per field), legacy set vs current SetField (bytes must be identical and equal '
                         'the model), legacy init vs current init (CVF: all 256 subtypes), alias macros must equal the enumerator of the '
                         'spec field and a write through the alias must change exactly that field; sizeof/offsetof of the packed '
-                        'legacy structs.' % R)
+                        'legacy structs.' % R + gnote)
         return vlib.finish('C12', 'exploration', tier, seed, obs, cov, ASSUME_COMMON, t0, min_evals=10000)
     finally:
         work.cleanup()
@@ -311,13 +332,14 @@ def c17(tier, seed):
         for v in ('gcc-O2', 'clang-O2'):
             run_modes(obs, build_fieldmon(work, v), dj, seed, tag='direct-' + v)
         config_variants(obs, work, [dict(VP_MODE='views', VP_FORMATS='all', VP_REPS=reps(tier, 100, 10000), VP_PLACE=pl) for pl in (0, 1)], seed, ('ilp32', 'ndebug', 'unsigned-char', 'msan'))
+        gnote = guided(obs, work, 'views get set', tier, seed)
         filt(obs, ['views:', 'direct:'])
         cov = dict(distinct_nontrivial=nt_views // len(PLACES), share_pairs=len(sp['shares']), placements=list(PLACES),
                    rule='%d (format.field = format.field) pairs of the sharing relation in spec/wire.spec (common header x 7 stream '
                         'formats, ACF common x 10 ACF messages, stream fields across TSCF/AAF/PCM/CVF/RVF) x {generic,dedicated}^2 '
                         'paths x (6 fixed + %d random) buffers: read via A == read via B, write via A == write via B byte for byte, '
                         'write via A then read via B returns the value; values include ones derived from the current contents (equal halves, same low '
-                        'bytes, neighbours); accessors of the hub formats also as direct-call sequences in optimised gcc/clang builds.' % (len(sp['shares']), R))
+                        'bytes, neighbours); accessors of the hub formats also as direct-call sequences in optimised gcc/clang builds.' % (len(sp['shares']), R) + gnote)
         return vlib.finish('C17', 'exploration', tier, seed, obs, cov, ASSUME_COMMON, t0, min_evals=10000)
     finally:
         work.cleanup()
